@@ -688,6 +688,8 @@ class ReactionSystem(object):
 
         """
         result = {}
+        if substance_keys is None:
+            substance_keys = self.substances.keys()
         if ratexs is None:
             ratexs = [None] * self.nr
         for rxn, ratex in zip(self.rxns, ratexs):
